@@ -426,6 +426,13 @@ func c18PackageOnce(c *fw.Ctx, id string, srcs map[string]string, withImporter b
 				return p, nil
 			}
 		}
+		// the Unresolved lists as the parser / decorator left them (NewPackage consumes them)
+		saveA := map[string][]*ast.Ident{}
+		saveD := map[string][]*dst.Ident{}
+		for _, n := range names {
+			saveA[n] = append([]*ast.Ident(nil), filesA[n].Unresolved...)
+			saveD[n] = append([]*dst.Ident(nil), dfiles[n].Unresolved...)
+		}
 		var apkg *ast.Package
 		var dpkg *dst.Package
 		var aerr, derr error
@@ -519,6 +526,64 @@ func c18PackageOnce(c *fw.Ctx, id string, srcs map[string]string, withImporter b
 		c.Count("packages", 1)
 		if len(apkg.Scope.Objects) >= 5 {
 			c.Nontrivial(id)
+		}
+		// a second run over the same files minus one (Unresolved lists put back on both sides): the
+		// identifiers bound in the first run are looked up again, in the smaller package
+		if len(names) >= 2 {
+			subA := map[string]*ast.File{}
+			subD := map[string]*dst.File{}
+			for _, n := range names[:len(names)-1] {
+				filesA[n].Unresolved = append([]*ast.Ident(nil), saveA[n]...)
+				dfiles[n].Unresolved = append([]*dst.Ident(nil), saveD[n]...)
+				subA[n], subD[n] = filesA[n], dfiles[n]
+			}
+			apkg2, aerr2 := ast.NewPackage(fsetA, subA, aimp, auni)
+			var dpkg2 *dst.Package
+			var derr2 error
+			if sig, detail := fw.Try(func() { dpkg2, derr2 = dst.NewPackage(fsetB, subD, dimp, duni) }); sig != "" {
+				c.Violate("newpackage-panic", sig, id+" [second run]\n"+detail, "")
+				return
+			}
+			if apkg2.Name == dpkg2.Name {
+				ea2, ed2 := normErrs(aerr2), normErrs(derr2)
+				if strings.Join(ea2, "\n") != strings.Join(ed2, "\n") {
+					viol("errors", fmt.Sprintf("second run without %s: error reports differ:\n ast: %v\n dst: %v", names[len(names)-1], ea2, ed2))
+				}
+				red2 := map[string]bool{}
+				for _, m := range append(ea2, ed2...) {
+					if strings.HasSuffix(m, " redeclared in this block") {
+						red2[strings.TrimSuffix(m, " redeclared in this block")] = true
+					}
+				}
+				for _, n := range names[:len(names)-1] {
+					var au, du []string
+					for _, u := range filesA[n].Unresolved {
+						au = append(au, u.Name)
+					}
+					for _, u := range dfiles[n].Unresolved {
+						du = append(du, u.Name)
+					}
+					if strings.Join(au, ",") != strings.Join(du, ",") {
+						viol("unresolved", fmt.Sprintf("second run without %s: %s: remaining Unresolved: ast %v, dst %v", names[len(names)-1], n, au, du))
+					}
+					aids, dids := identSeqAst(filesA[n]), identSeqDst(dfiles[n])
+					for i := range aids {
+						if i >= len(dids) {
+							break
+						}
+						ao, do := aids[i].Obj, dids[i].Obj
+						if (ao == nil) != (do == nil) {
+							viol("resolution-status", fmt.Sprintf("second run: %s: identifier #%d %q resolved on one side only (ast %v, dst %v)", n, i, aids[i].Name, ao != nil, do != nil))
+							break
+						}
+						if ao != nil && !red2[ao.Name] && !redeclared[ao.Name] && (int(ao.Kind) != int(do.Kind) || ao.Name != do.Name) {
+							viol("resolution-target", fmt.Sprintf("second run: %s: identifier #%d %q resolves to %s %q vs %s %q", n, i, aids[i].Name, ao.Kind, ao.Name, do.Kind, do.Name))
+							break
+						}
+					}
+				}
+				c.Count("second_runs", 1)
+			}
 		}
 		// (5) decorate the *ast.Package that go/ast built (package scope with its Outer chain,
 		// Imports map of package objects whose Data is a scope) and compare the graphs
